@@ -29,6 +29,15 @@ def lists_of_others_unchanged(o: H, h: H, owner, fields):
         FA([l], z3.Implies(cond, z3.Select(h.arr['L_at'], l) == z3.Select(o.arr['L_at'], l)), [z3.Select(h.arr['L_at'], l)]))
 
 
+def lists_precise(o: H, h: H, cond_fn):
+    l = A('l!lp')
+    cond = z3.And(l >= 0, l < o.alloc, cond_fn(l))
+    return z3.And(
+        FA([l], z3.Implies(cond, h.bagof(l) == o.bagof(l)), [h.bagof(l)]),
+        FA([l], z3.Implies(cond, h.len(l) == o.len(l)), [h.len(l)]),
+        FA([l], z3.Implies(cond, z3.Select(h.arr['L_at'], l) == z3.Select(o.arr['L_at'], l)), [z3.Select(h.arr['L_at'], l)]))
+
+
 def install(reg: Registry):
     install_lookups(reg)
     install_remove_attacker(reg)
@@ -331,6 +340,10 @@ def install_add_attacker(reg):
                                                       z3.And(h.own_obj(A('l!fo2')) == o.own_obj(A('l!fo2')), h.own_fld(A('l!fo2')) == o.own_fld(A('l!fo2')),
                                                              h.cls(A('l!fo2')) == o.cls(A('l!fo2')))), [h.own_obj(A('l!fo2'))])),
             ('name-kept', h.f('name', a) == o.f('name', a)),
+            # precise list frame: besides G's attacker list, the attacker's own two lists and compromised_by lists nothing moves
+            ('frame.precise', lists_precise(o, h, lambda l: z3.And(l != AL, l != o.f('reached_attack_steps', a), l != o.f('entry_points', a),
+                                                                  z3.Or(o.own_obj(l) == -1, o.own_fld(l) != field_id('compromised_by'))))),
+            ('frame.ids', FA([b], z3.Implies(b != a, h.f('id', b) == o.f('id', b)), [h.f('id', b)])),
             ('frame.other-compromisers', FA([n, b], z3.Implies(z3.And(is_node(o, G, n), b != a), cb(h, n, b) == cb(o, n, b)), [cb(h, n, b)])),
         ]
 
@@ -566,7 +579,7 @@ def install_attach_attackers(reg):
                                             h.f('model', G) == o.f('model', G), h.f('attackers', model_of_h(o, G)) == o.f('attackers', model_of_h(o, G)))),
             ('names-kept', z3.And(*[FA([A('x!nk')], z3.Implies(z3.And(A('x!nk') >= 0, A('x!nk') < o.alloc),
                                                                z3.Select(h.arr[n_], A('x!nk')) == z3.Select(o.arr[n_], A('x!nk'))), [z3.Select(h.arr[n_], A('x!nk'))])
-                                    for n_ in ('f_name', 'f_' + AAN, 'f_asset', 'f_t0', 'f_t1', 'f_id') if not z3.eq(h.arr[n_], o.arr[n_])], z3.BoolVal(True))),
+                                    for n_ in ('f_name', 'f_' + AAN, 'f_asset', 'f_t0', 'f_t1', 'f_id', 'f_entry_points', 'f_reached_attack_steps') if not z3.eq(h.arr[n_], o.arr[n_])], z3.BoolVal(True))),
         ]
 
     def model_of_h(o, G):
@@ -604,6 +617,8 @@ def install_attach_attackers(reg):
             ('prefix-kept', FA([j], z3.Implies(z3.And(0 <= j, j < o.len(AL)), h.at(AL, j) == o.at(AL, j)), [h.at(AL, j)])),
             ('attached', FA([j], z3.Implies(z3.And(0 <= j, j < c.i), attached(o, h, G, j)), [h.at(AL, o.len(AL) + j)])),
             ('model-own', requires(c)[-1][1]),
+            ('names-ok', FA([A('I!n0')], z3.Implies(z3.Select(c.done, VRef(A('I!n0'))) > 0,
+                                                    z3.And(is_VStr(o.f(AAN, A('I!n0'))), o.f(AAN, A('I!n0')) != VStr(str_const('')))), [z3.Select(c.done, VRef(A('I!n0')))])),
         ]
 
     def cur_attacker(c):
